@@ -18,5 +18,10 @@ def p_kernels(ctx):
     run_kernels(ctx, "functional")
 
 
+def p_deflevels(ctx):
+    from ._deflevels import p_deflevels as f
+    f(ctx)
+
+
 def run(ctx):
-    return run_property(ctx, "proof", EXPLANATION, p_parts=[p_kernels], b_modules=["c11_numpy_paths"])
+    return run_property(ctx, "proof", EXPLANATION, p_parts=[p_kernels, p_deflevels], b_modules=["c11_numpy_paths"])
